@@ -267,9 +267,9 @@ func TestC19(t *testing.T) {
 }
 
 // C19 (KV): KVToBytes/KVFromBytes invert each other; CompareKV orders by key.
-func TestC19KV(t *testing.T) {
-	st := ev.Get("C19", "TestC19KV")
-	rapid.Check(t, func(t *rapid.T) {
+func makePropC19KV(test string) func(t *rapid.T) {
+	st := ev.Get("C19", test)
+	return func(t *rapid.T) {
 		sched.SeedRand(t)
 		genK := func(label string) []byte {
 			switch rapid.IntRange(0, 9).Draw(t, label+"class") {
@@ -336,5 +336,72 @@ func TestC19KV(t *testing.T) {
 			fail("kv-compare", "CompareKV orders the pairs %d, bytes.Compare orders their keys %d (swapped)", got, want)
 		}
 		st.Case(desc, len(k1) > 0 && len(k2) > 0 && (len(k1) != len(k2) || bytes.Equal(k1, k2) || len(k1) >= 256))
+	}
+}
+
+func TestC19KV(t *testing.T) {
+	rapid.Check(t, makePropC19KV("TestC19KV"))
+}
+
+// FuzzC19KV drives the KV property with coverage-guided native fuzzing (thorough tier).
+func FuzzC19KV(f *testing.F) {
+	f.Fuzz(rapid.MakeFuzz(makePropC19KV("FuzzC19KV")))
+}
+
+// FuzzC19Decode: DecodeItem on arbitrary bytes never panics, and re-encoding what it
+// decoded reproduces exactly the consumed prefix (both format versions).
+func FuzzC19Decode(f *testing.F) {
+	st := ev.Get("C19", "FuzzC19Decode")
+	db := nitro.New()
+	f.Add([]byte{0, 0, 0, 3, 'a', 'b', 'c', 0, 0, 0, 0}, true)
+	f.Add([]byte{0, 2, 'x', 'y', 0, 0}, false)
+	f.Add([]byte{0xff, 0xff, 0xff, 0xff, 1}, true)
+	f.Fuzz(func(t *testing.T, data []byte, v1 bool) {
+		if len(data) > 1<<16 {
+			return
+		}
+		ver := 0
+		if v1 {
+			ver = 1
+			// a 4-byte length prefix may ask for gigabytes: keep the first length small
+			if len(data) >= 4 && (data[0] != 0 || data[1] > 1) {
+				return
+			}
+		}
+		r := bytes.NewReader(data)
+		scratch := make([]byte, 4)
+		consumed := 0
+		var re bytes.Buffer
+		n := 0
+		for {
+			before := r.Len()
+			if v1 && before >= 4 {
+				rest := data[len(data)-before:]
+				if rest[0] != 0 || rest[1] > 1 {
+					break
+				}
+			}
+			itm, _, err := db.DecodeItem(ver, scratch, r)
+			if err != nil || itm == nil {
+				break
+			}
+			n++
+			consumed += before - r.Len()
+			if v1 {
+				if _, err := db.EncodeItem(itm, scratch, &re); err != nil {
+					t.Fatalf("EncodeItem of a decoded item failed: %v", err)
+				}
+			} else {
+				var hdr [2]byte
+				binary.BigEndian.PutUint16(hdr[:], uint16(len(itm.Bytes())))
+				re.Write(hdr[:])
+				re.Write(itm.Bytes())
+			}
+		}
+		if !bytes.Equal(re.Bytes(), data[:consumed]) {
+			st.Fail("decode-reencode", fmt.Sprintf("re-encoding %d decoded items does not reproduce the consumed prefix of %x", n, data))
+			t.Fatalf("FAIL[decode-reencode] re-encoding %d decoded items does not reproduce the consumed prefix of %x (format v%d)", n, data, ver)
+		}
+		st.Case(fmt.Sprintf("%x/%v", data, v1), n >= 1)
 	})
 }
